@@ -34,3 +34,133 @@ PLANS["C14"] = {
         "assumptions": COMMON_ASSUME,
     },
 }
+
+HIST_FUNCS = ["define_histogram!{from_ranges,find,add,range_min,range_max,bins,ranges,__verif hooks}", "<[f64]>::binary_search_by (Kani's pinned core)",
+              "f64::partial_cmp"]
+PLANS["C06"] = {
+    "k": [
+        K("c06::len1", note="LEN 1: all edge pairs via real from_ranges (inf, -0.0, repeated edges), all samples incl. NaN (must be rejected without panic), arbitrary counts"),
+        K("c06::len2", note="LEN 2"),
+        K("c06::len3", note="LEN 3"),
+        K("c06::len4", note="LEN 4"),
+        K("c06::dup3", note="LEN 3, directed: sample exactly on a repeated edge never lands in the zero-width bin"),
+        K("c06::dup4", note="LEN 4, same"),
+        K("c06::len10", tier="thorough", timeout=3600, note="exported Histogram10"),
+        K("c06::dup10", tier="thorough", timeout=3600, note="Histogram10 repeated edges"),
+    ],
+    "meta": {
+        "functions_encoded": HIST_FUNCS,
+        "bounds": ["LEN in {1,2,3,4} (quick) + 10 (thorough); edges and sample are unconstrained doubles (edges filtered by the real from_ranges)",
+                   "counts: arbitrary u64 below u64::MAX, one add = inductive step over any add history"],
+        "outside_bounds": ["LEN = 100 and other LEN", "with_const_width-built histograms are covered through 'every valid edge vector' (C12 shows its edges are valid)",
+                           "the choice among equal elements by binary_search is unspecified by std: the verdict is for Kani's pinned core; counterexamples are replayed on the repo toolchain"],
+        "assumptions": COMMON_ASSUME,
+    },
+}
+
+PLANS["C12"] = {
+    "k": [
+        K("c12::from_ranges1", note="LEN 1: any list of 0..4 unconstrained doubles (NaN, inf, -0.0): Result equals the first-offender spec"),
+        K("c12::from_ranges2", note="LEN 2, lists of 0..5"),
+        K("c12::from_ranges3", note="LEN 3, lists of 0..6"),
+        K("c12::from_ranges4", note="LEN 4, lists of 0..7"),
+        K("c12::const_width_struct2", note="LEN 2, all finite start<end with |.| in {0} U [1e-30,1e30]: LEN+1 edges, first == start, non-decreasing, zero counts"),
+        K("c12::const_width_struct4", timeout=600, note="LEN 4, same"),
+        K("c12::from_ranges10", tier="thorough", timeout=3600, note="Histogram10, lists of 0..13"),
+    ],
+    "meta": {
+        "functions_encoded": ["define_histogram!{from_ranges,with_const_width,ranges,bins}", "Iterator::{take,copied,enumerate}"],
+        "bounds": ["LEN in {1,2,3,4} (+10 thorough); input list length 0..LEN+3, elements unconstrained doubles",
+                   "with_const_width: structural claims for LEN 2 and 4 on the full C12 magnitude domain"],
+        "outside_bounds": ["LEN = 100", "with_const_width edge i within a few ulps of start + i*(end-start)/LEN: bit-blasting the divider/multiplier "
+                           "did not finish in 10-15 min even for LEN 2 or on an i16 lattice; the formula is decided in exact arithmetic by engine M"],
+        "assumptions": COMMON_ASSUME,
+    },
+}
+
+SAME_RANGES = [r"Both histograms must have the same ranges"]
+PLANS["C13"] = {
+    "k": [
+        K("c13::same_edges2", note="LEN 2: arbitrary valid edges (hook-built), arbitrary counts < 2^61: merge == += == bin-wise sum, commutes, associates, argument and edges unchanged"),
+        K("c13::same_edges3", note="LEN 3"),
+        K("c13::scale_reset2", note="LEN 2: *= k multiplies every count, reset zeroes and keeps edges bit for bit, usable again"),
+        K("c13::scale_reset3", note="LEN 3"),
+        K("c13::views2", timeout=600, note="LEN 2: iteration yields exactly LEN ((lower,upper),count) items in order; widths == upper-lower"),
+        K("c13::views3", timeout=600, note="LEN 3"),
+        K("c13::centers2", timeout=900, note="LEN 2: centers within 2 ulp of (lower+upper)/2 (bit-pattern distance)"),
+        K("c13::diff_merge2", must_panic=True, allow_fail=SAME_RANGES, require_fail=SAME_RANGES, allow_panic=SAME_RANGES,
+          note="LEN 2: edges differing at a symbolic index: merge panics on every input (statement after the call unreachable)"),
+        K("c13::diff_merge3", must_panic=True, allow_fail=SAME_RANGES, require_fail=SAME_RANGES, allow_panic=SAME_RANGES, note="LEN 3"),
+        K("c13::diff_addassign2", must_panic=True, allow_fail=SAME_RANGES, require_fail=SAME_RANGES, allow_panic=SAME_RANGES, note="LEN 2: += panics"),
+        K("c13::diff_addassign3", must_panic=True, allow_fail=SAME_RANGES, require_fail=SAME_RANGES, allow_panic=SAME_RANGES, note="LEN 3"),
+        K("c13::views1", tier="thorough", timeout=600, note="LEN 1"),
+        K("c13::same_edges4", tier="thorough", timeout=1800, note="LEN 4"),
+        K("c13::same_edges10", tier="thorough", timeout=3600, note="Histogram10"),
+        K("c13::scale_reset10", tier="thorough", timeout=3600, note="Histogram10"),
+        K("c13::views10", tier="thorough", timeout=3600, note="Histogram10"),
+        K("c13::centers3", tier="thorough", timeout=3600, note="LEN 3"),
+        K("c13::variance2", tier="thorough", timeout=3600, note="LEN 2: variance(i) agrees with variances()[i]; every view yields LEN items"),
+        K("c13::diff_merge10", tier="thorough", timeout=1800, must_panic=True, allow_fail=SAME_RANGES, require_fail=SAME_RANGES, allow_panic=SAME_RANGES, note="Histogram10"),
+        K("c13::diff_addassign10", tier="thorough", timeout=1800, must_panic=True, allow_fail=SAME_RANGES, require_fail=SAME_RANGES, allow_panic=SAME_RANGES, note="Histogram10"),
+    ],
+    "meta": {
+        "functions_encoded": ["define_histogram!{Merge::merge, AddAssign<&Self>, MulAssign<u64>, reset, iter, IntoIterator, bins, ranges, find, add}",
+                              "Histogram::{widths,centers,variance,variances,normalized_bins} + their iterators"],
+        "bounds": ["LEN in {2,3} (quick) + {1,4,10} (thorough); operands built with the hook from arbitrary valid edges and counts below 2^61 (2^32 for *=)"],
+        "outside_bounds": ["u64 overflow in += / *=", "LEN = 100",
+                           "operand state at the instant of the panic (Kani ends the path at a panic); the real code checks all edges before mutating",
+                           "normalized_bins == count/width and the variance formula value: one double division per bin does not bit-blast in 10 min; formula decided by engine M"],
+        "assumptions": COMMON_ASSUME + ["CBMC's optional NaN/float-overflow checks are ignored: inf-inf = NaN is legal IEEE-754 behaviour, not a panic"],
+    },
+}
+
+Q_FUNCS = ["Quantile::{new,add,quantile,len,is_empty,p,parabolic,linear,estimate}", "float_ord::sort (core slice sort)",
+           "easy_cast::{Conv,ConvFloat} conversions", "f64::ceil, f64::max, core::cmp::min"]
+PLANS["C07"] = {
+    "k": [
+        K("c07::grid1", note="n=1: p any double with <= 13 significant bits in {0} U [2^-12,1] (contains every m/4096), value any finite double"),
+        K("c07::grid2", note="n=2, same p set, all value pairs in arrival order (all permutations/ties)"),
+        K("c07::grid3", timeout=600, note="n=3"),
+        K("c07::grid4", timeout=900, note="n=4"),
+        K("c07::twelfth2", timeout=600, note="n=2: p = fl(c/12) and its two floating-point neighbours"),
+        K("c07::twelfth3", timeout=600, note="n=3: includes the unrepresentable thirds and both neighbours"),
+        K("c07::twelfth4", tier="thorough", timeout=1800, note="n=4"),
+        K("c07::free1", tier="thorough", timeout=1800, note="n=1, p any double in [0,1]"),
+        K("c07::free2", tier="thorough", timeout=3600, note="n=2, p any double in [0,1] (n*p exact)"),
+        K("c07::free4", tier="thorough", timeout=7200, note="n=4, p any double in [0,1] (n*p exact)"),
+        K("c07::free3", tier="thorough", timeout=7200, note="n=3, p any double in [0,1], acceptance-set oracle"),
+    ],
+    "meta": {
+        "functions_encoded": Q_FUNCS,
+        "bounds": ["n in {1,2,3,4} observations, finite doubles with |x| <= 1e300, every arrival order",
+                   "p: 13-significant-bit grid (quick), c/12 +- 1 ulp (quick n=2,3), free double (thorough)"],
+        "outside_bounds": ["free-double p may not finish within the thorough budget (reported inconclusive, never success)"],
+        "assumptions": COMMON_ASSUME + ["oracle: sorted copy v; p=0 -> v[0]; p=1 -> v[n-1]; exact whole n*p=j -> (v[j-1]+v[j])/2 within 2 ulp; "
+                                        "else v[ceil(n*p)-1]; when only fl(n*p) is within 1 ulp of whole j: any of v[j-1], v[j], their average"],
+    },
+}
+
+NEW_PANIC = [r"assertion failed: \(0\. \.\.=1\.\)\.contains\(&p\)"]
+PLANS["C15"] = {
+    "k": [
+        K("c15::stream1", note="p any double in [0,1]; 1 finite observation: len/is_empty/p()/quantile range after every add"),
+        K("c15::stream2", note="2 observations"),
+        K("c15::stream3", timeout=600, note="3 observations"),
+        K("c15::stream4", timeout=900, note="4 observations"),
+        K("c15::stream5", timeout=1200, note="5 observations; at the fifth: heights sorted, extremes = min/max, positions 1..5"),
+        K("c15::new_invalid", must_panic=True, allow_fail=NEW_PANIC, require_fail=NEW_PANIC, allow_panic=NEW_PANIC,
+          note="Quantile::new(p) for every p outside [0,1] or NaN panics"),
+        K("c15::step_newmin", timeout=900, note="inductive step from any well-formed marker state (count <= 2^40, full doubles), sample below the first marker"),
+        K("c15::step_top", timeout=900, note="same, sample at or above the last marker"),
+        K("c15::step_interior", tier="thorough", timeout=3600, note="same, sample strictly inside the marker range"),
+        K("c15::step_lat", tier="thorough", timeout=5400, note="heights/sample on an i8 lattice (offset k*1024), positions <= 32: heights stay ordered, quantile() in [min,max]"),
+    ],
+    "meta": {
+        "functions_encoded": Q_FUNCS,
+        "bounds": ["streams of 1..5 full-double observations from new(p), p any double in [0,1]",
+                   "one add from an arbitrary well-formed state: heights finite non-decreasing, positions strictly increasing 1..count<=2^40, desired positions arbitrary finite"],
+        "outside_bounds": ["height ordering after marker moves for off-lattice doubles (bit-blasting the parabolic formula does not finish); decided in exact arithmetic by engine M in C05",
+                           "a counterexample of the step harness starts from a hook-built state that may be unreachable; it is replayed natively from that state"],
+        "assumptions": COMMON_ASSUME,
+    },
+}
